@@ -45,6 +45,7 @@ CJmpI(t)   == <<0, <<>>, <<>>, <<>>, <<t, 0>>, 0>>       \* 0 = the next instruc
 
 Names == IF Menu = "full" THEN {1, 2, 4, 5} ELSE {2, 4, 5}
 Instrs ==
+    IF Menu = "tiny" THEN {DefI(4), DefI(5), UseI(4), UseI(5), OpI(4, 5), ClobI(3), MovI(5, 4), CJmpI(1)} ELSE
     {DefI(x) : x \in Names} \cup {UseI(x) : x \in Names}
     \cup {MovI(d, s) : d \in Names, s \in Names \ {1}}
     \cup {OpI(d, s) : d \in Virt, s \in Virt}
@@ -60,19 +61,19 @@ Place(e, i, n) ==
       e[6]>>
 JumpsInside(e, n) == \A k \in 1..Len(e[5]) : e[5][k] <= n
 
-VARIABLES phase, prog, col, rm, brk, pc, cur, holds, tab
-vars == <<phase, prog, col, rm, brk, pc, cur, holds, tab>>
-View == <<phase, prog, col, rm, brk, pc, cur, holds>>
+VARIABLES phase, prog, colr, rm, brk, pc, last, cur, holds, tab
+vars == <<phase, prog, colr, rm, brk, pc, last, cur, holds, tab>>
+View == <<phase, prog, colr, rm, brk, pc, last, cur, holds>>
 Empty == [r \in {} |-> 0]
 NoTab == [n |-> 0]
 
-Init == /\ phase = "build" /\ prog = <<>> /\ col = <<>> /\ rm = "none" /\ brk = 0
-        /\ pc = 0 /\ cur = Empty /\ holds = Empty /\ tab = NoTab
+Init == /\ phase = "build" /\ prog = <<>> /\ colr = <<>> /\ rm = "none" /\ brk = 0
+        /\ pc = 0 /\ last = 0 /\ cur = Empty /\ holds = Empty /\ tab = NoTab
 
 \* ---- building the case ----
 AddInstr == /\ phase = "build" /\ Len(prog) < MaxLen
             /\ \E e \in Instrs : prog' = Append(prog, e)
-            /\ UNCHANGED <<phase, col, rm, brk, pc, cur, holds, tab>>
+            /\ UNCHANGED <<phase, colr, rm, brk, pc, last, cur, holds, tab>>
 
 Placed(p) == Mk([i \in 1..Len(p) |-> Place(p[i], i, Len(p))])
 WellFormed(p) == \A i \in 1..Len(p) : JumpsInside(p[i], Len(p))
@@ -83,15 +84,20 @@ ColourCase(W, c, mode) ==
                        /\ IsMv(W[i]) /\ mode # "none"
                        /\ (mode = "all" \/ LocC(c, D(W[i])[1]) = LocC(c, U(W[i])[1]))}
         S == SelectSeq(W, LAMBDA e : Id(e) \notin removed)
-    IN [mode |-> "colour", nn |-> NN, W |-> W, S |-> S, colour |-> c, blocks |-> <<>>,
+    IN [mode |-> "colour", nn |-> NN, W |-> W, S |-> S, colour |-> c, blocks |-> <<>>, chain |-> <<>>,
         pre |-> Mk([i \in 1..Len(W) |-> i]), post |-> Mk([k \in 1..Len(S) |-> Id(S[k])])]
 
 StartColour ==
     /\ phase = "build" /\ Len(prog) >= 1 /\ WellFormed(prog)
     /\ \E c4 \in 1..NP : \E c5 \in 1..NP : \E m \in {"none", "same", "all"} :
-          /\ col' = <<1, 2, 3, c4, c5>> /\ rm' = m
+          \* only the deletion modes that differ on this program and colouring
+          /\ m = "same" => \E i \in 1..Len(prog) : /\ IsMv(prog[i])
+                                                   /\ LocC(<<1, 2, 3, c4, c5>>, D(prog[i])[1]) = LocC(<<1, 2, 3, c4, c5>>, U(prog[i])[1])
+          /\ m = "all" => \E i \in 1..Len(prog) : /\ IsMv(prog[i])
+                                                  /\ LocC(<<1, 2, 3, c4, c5>>, D(prog[i])[1]) # LocC(<<1, 2, 3, c4, c5>>, U(prog[i])[1])
+          /\ colr' = <<1, 2, 3, c4, c5>> /\ rm' = m
           /\ tab' = Build(ColourCase(Placed(prog), <<1, 2, 3, c4, c5>>, m), Ov)
-    /\ phase' = "colour" /\ pc' = 1 /\ UNCHANGED <<prog, brk, cur, holds>>
+    /\ phase' = "colour" /\ pc' = 1 /\ UNCHANGED <<prog, brk, last, cur, holds>>
 
 (* The specification of rewrite_program for the temporary 4: walk the list; an   *)
 (* instruction that mentions 4 gets a fresh register (NN + its position) in      *)
@@ -101,18 +107,16 @@ Touches(e) == 4 \in Range(U(e)) \cup Range(D(e))
 Ren(s, x) == Mk([k \in 1..Len(s) |-> IF s[k] = 4 THEN x ELSE s[k]])
 \* pieces contributed by instruction i of the original list, with their original ids
 \* piece = <<kind ("load" | "ins" | "store"), original id, fresh register>>
-Pieces(W) ==
-    LET P(i) == IF ~Touches(W[i]) THEN <<<<"ins", i, 0>>>>
-                ELSE (IF 4 \in Range(U(W[i])) THEN <<<<"load", i, NN + i>>>> ELSE <<>>)
-                     \o <<<<"ins", i, NN + i>>>>
-                     \o (IF 4 \in Range(D(W[i])) THEN <<<<"store", i, NN + i>>>> ELSE <<>>)
-    IN P
+Pieces(W, i) ==
+    IF ~Touches(W[i]) THEN <<<<"ins", i, 0>>>>
+    ELSE (IF 4 \in Range(U(W[i])) THEN <<<<"load", i, NN + i>>>> ELSE <<>>)
+         \o <<<<"ins", i, NN + i>>>>
+         \o (IF 4 \in Range(D(W[i])) THEN <<<<"store", i, NN + i>>>> ELSE <<>>)
 RECURSIVE Flat(_, _, _)
 Flat(P, i, n) == IF i > n THEN <<>> ELSE P[i] \o Flat(P, i + 1, n)
 SpillCase(W0, skip) ==
     LET n == Len(W0)
-        PP == Pieces(W0)
-        all == Flat([i \in 1..n |-> PP(i)], 1, n)
+        all == Flat([i \in 1..n |-> Pieces(W0, i)], 1, n)
         blockIdx == {k \in 1..Len(all) : all[k][1] # "ins"}
         \* leave out the skip-th block
         dropped == IF skip = 0 \/ skip > Cardinality(blockIdx) THEN 0
@@ -133,36 +137,44 @@ SpillCase(W0, skip) ==
                       Mk([t \in 1..Len(J(W0[i])) |-> posOf[J(W0[i])[t]]]), W0[i][6]>>])
         blks == SelectSeq(Mk([k \in 1..m |-> <<IF pieces[k][1] = "load" THEN 1 ELSE IF pieces[k][1] = "store" THEN 2 ELSE 0,
                                                 pieces[k][3], 1, <<k>>>>]), LAMBDA b : b[1] # 0)
-    IN [mode |-> "spill", nn |-> NN + n, W |-> after, S |-> before, colour |-> <<>>, blocks |-> blks,
+    IN [mode |-> "spill", nn |-> NN + n, W |-> after, S |-> before, colour |-> <<>>, blocks |-> blks, chain |-> <<>>,
         pre |-> <<>>, post |-> <<>>]
 
 StartSpill ==
     /\ phase = "build" /\ Len(prog) >= 1 /\ WellFormed(prog)
     /\ \E i \in 1..Len(prog) : Touches(prog[i])
+    \* assumption on the input (true of ppci's lists: jump targets are labels or bare jumps):
+    \* no jump lands on an instruction that mentions the spilled register
+    /\ \A i \in 1..Len(prog) : \A k \in 1..Len(prog[i][5]) :
+          prog[i][5][k] # 0 => ~Touches(prog[prog[i][5][k]])
+    /\ \A i \in 1..(Len(prog) - 1) : Len(prog[i][5]) = 2 => ~Touches(prog[i + 1])
     /\ \E skip \in 0..(2 * Len(prog)) :
           /\ skip <= Cardinality({k \in 1..Len(prog) : 4 \in Range(U(prog[k]))})
                      + Cardinality({k \in 1..Len(prog) : 4 \in Range(D(prog[k]))})
           /\ brk' = skip
           /\ tab' = Build(SpillCase(Placed(prog), skip), Ov)
-    /\ phase' = "spill" /\ pc' = 1 /\ UNCHANGED <<prog, col, rm, cur, holds>>
+    /\ phase' = "spill" /\ pc' = 1 /\ UNCHANGED <<prog, colr, rm, last, cur, holds>>
 
 \* ---- the machine (same actions as AllocCheck_Trace) ----
 P == tab
 At == P.T[pc]
 Running == phase \in {"colour", "spill"} /\ pc >= 1 /\ pc <= P.n
-Healthy == /\ ReadsOK(P, pc, cur, holds) /\ NoShare(P, cur) /\ RemovedOK(P, pc) /\ InsertedOK(P, pc)
-Exec == /\ Running /\ Healthy /\ At.kind = "both"
+Healthy == /\ ReadsOK(P, pc, cur, holds) /\ NoShareStep(P, last, cur) /\ RemovedOK(P, pc) /\ InsertedOK(P, pc)
+\* one step of the machine at an entry of the given kind; a path is followed only while the
+\* property holds on it (Healthy), so every failing path prefix is reported once
+At_(kind) == /\ Running /\ At.kind = kind /\ Healthy /\ last' = pc /\ UNCHANGED <<phase, prog, colr, rm, brk, tab>>
+\* an instruction of both programs: reads are checked (Healthy / invariants), definitions take effect
+Exec == /\ At_("both")
         /\ \E j \in At.succ : \E s \in {ExecTo(P, pc, j, cur, holds)} :
               pc' = j /\ cur' = s.cur /\ holds' = s.holds
-        /\ UNCHANGED <<phase, prog, col, rm, brk, tab>>
-RemovedMove == /\ Running /\ Healthy /\ At.kind = "spec"
+\* a coalesced move deleted by remove_redundant_moves: only the ground truth moves on
+RemovedMove == /\ At_("spec")
                /\ \E j \in At.succ : \E s \in {RemovedTo(P, pc, j, cur, holds)} :
                      pc' = j /\ cur' = s.cur /\ holds' = s.holds
-               /\ UNCHANGED <<phase, prog, col, rm, brk, tab>>
-SpillBlock == /\ Running /\ Healthy /\ At.kind = "impl" /\ At.blk # 0
+\* spill code inserted by rewrite_program: one load / store block, atomically
+SpillBlock == /\ At_("impl") /\ At.blk # 0
               /\ \E s \in {BlockTo(P, pc, cur, holds)} :
                     pc' = pc + At.blkLen /\ cur' = s.cur /\ holds' = s.holds
-              /\ UNCHANGED <<phase, prog, col, rm, brk, tab>>
 Next == AddInstr \/ StartColour \/ StartSpill \/ Exec \/ RemovedMove \/ SpillBlock
 
 \* ---- what a correct allocator guarantees (the interference relation) ----
@@ -184,6 +196,8 @@ CorrectRewriteIsAccepted ==
     (phase = "spill" /\ brk = 0) =>
         /\ Structure
         /\ Running => Healthy
+\* the incremental form of sentence 2 used by the machine is sentence 2
+IncrementalNoSharingIsNoSharing == Running => (NoShareStep(P, last, cur) <=> NoShare(P, cur))
 LivenessIsPathLiveness ==
     (phase # "build" /\ pc = 1) =>
         \A i \in 1..P.n : \A r \in 1..P.nn : (r \in P.live[i]) <=> LivePath(P.T, P.n, r, i, {i})
@@ -196,8 +210,8 @@ TypeOK ==
           /\ \A l \in DOMAIN holds : holds[l] \in {cur[r] : r \in DOMAIN cur}
 
 \* ---- witnesses: each clause can be violated (run with exactly one of these as invariant) ----
-ReadsSeeLatestDef == Running => ReadsOK(P, pc, cur, holds)
-NoSharing         == Running => NoShare(P, cur)
-CoalescedSameLoc  == Running => RemovedOK(P, pc)
+ReadsSeeLatestDef == (Running /\ phase = "colour") => ReadsOK(P, pc, cur, holds)
+NoSharing         == (Running /\ phase = "colour") => NoShareStep(P, last, cur)
+CoalescedSameLoc  == (Running /\ phase = "colour") => RemovedOK(P, pc)
 SpillReadsSeeLatestDef == (Running /\ phase = "spill") => ReadsOK(P, pc, cur, holds)
 =============================================================================
